@@ -364,7 +364,6 @@ def exec : Nat → Instr → M Unit
         | some (_, .fn f) =>
           let fo := fnOf s f
           if fo.varargs then wrangleOptargs fo.nargs nargs
-          else if nargs ≠ fo.nargs then err       -- fix C09-02: the arity check of CallFunction
           incPc
         | some _ => incPc
     | .pushLazy e => do
